@@ -25,8 +25,9 @@ func randU64(rng *rand.Rand) uint64 {
 }
 
 type c02Params struct {
-	Spec  *SessSpec `json:"spec"`
-	Round bool      `json:"round,omitempty"` // round trip: second session from what the first one stored
+	Spec   *SessSpec `json:"spec"`
+	Round  bool      `json:"round,omitempty"`  // round trip: second session from what the first one stored
+	Reopen bool      `json:"reopen,omitempty"` // second open inside one session
 }
 
 func c02Spec(rng *rand.Rand, i int) (*c02Params, string) {
@@ -121,6 +122,89 @@ func c02ReadOnlySpec(rng *rand.Rand, i int) *c02Params {
 	}
 	sp.Steps = []Step{{Op: "barrier"}, {Op: "commit"}, {Op: "append", VB: 0, Items: genSnap(rng, o, &ctr)}, {Op: "barrier"}, {Op: "commit"}}
 	return &c02Params{Spec: sp}
+}
+
+// c02ReopenSpec: the second open of a session (a rebalance) loads and samples again.
+func c02ReopenSpec(rng *rand.Rand, i int) *c02Params {
+	sp := &SessSpec{NumVB: 2 + rng.Intn(3), Nodes: 1, AckSeed: rng.Int63(), PNow: 1, Backlog: map[int][][]ItemSpec{}, PreStore: map[int][4]uint64{}, Failover: map[int][][2]uint64{},
+		Membership: "dynamic", FirstInfo: [2]int{1, 1}, API: true}
+	o := &HistOpts{NumVB: sp.NumVB, PSystem: 0.05, PSeqAdv: 0.1, MaxItems: 4}
+	ctr := 0
+	for vb := 0; vb < sp.NumVB; vb++ {
+		sp.Failover[vb] = [][2]uint64{{0xabc000 + uint64(vb), 0}}
+		sp.Backlog[vb] = append(sp.Backlog[vb], genSnap(rng, o, &ctr), genSnap(rng, o, &ctr))
+	}
+	if i%2 == 0 {
+		// finite mode: the end of the re-requested streams is the high seqno sampled at THAT open. The consumer is held inside
+		// its first delivery while the rebalance is requested and the vBuckets receive more documents.
+		sp.Mode = "finite"
+		sp.Backend = []string{"mem", "cb"}[rng.Intn(2)]
+		sp.HoldConsAtStart = true
+		sp.Steps = []Step{{Op: "waitblocked", N: 1}}
+		for vb := 0; vb < sp.NumVB; vb++ {
+			sp.Steps = append(sp.Steps, Step{Op: "append", VB: vb, Items: genSnap(rng, o, &ctr)})
+		}
+		sp.Steps = append(sp.Steps, Step{Op: "rebalanceapi"}, Step{Op: "waitrebalance", N: 1}, Step{Op: "releasecons"}, Step{Op: "waitstop", Ms: 4000})
+		return &c02Params{Spec: sp, Reopen: true}
+	}
+	// read-only mode: another writer moves the checkpoints between the two opens; the second open loads them afresh
+	sp.ReadOnly = true
+	sp.Backend = []string{"mem", "cb"}[rng.Intn(2)]
+	sp.Steps = []Step{{Op: "barrier"}}
+	for vb := 0; vb < sp.NumVB; vb++ {
+		if rng.Intn(4) != 0 {
+			sp.Steps = append(sp.Steps, Step{Op: "extwrite", VB: vb, N: 1 + rng.Intn(2)})
+		}
+	}
+	sp.Steps = append(sp.Steps, Step{Op: "rebalanceapi"}, Step{Op: "waitrebalance", N: 1}, Step{Op: "barrier"})
+	return &c02Params{Spec: sp, Reopen: true}
+}
+
+// OracleReopen: the requests of the second open equal what the store held / the node reported at that open.
+func OracleReopen(tr *Trace) ([]Finding, int) {
+	var fs []Finding
+	n := 0
+	var bsstart []int64
+	for _, r := range tr.Log {
+		if r.K == "eh.BSStart" {
+			bsstart = append(bsstart, r.T)
+		}
+	}
+	if len(bsstart) < 2 {
+		return []Finding{{"C02", "reopen", "C02/reopen/inconclusive", "no second open observed"}}, 0
+	}
+	ext := map[int]tuple{}
+	for _, r := range tr.Log {
+		if r.K == "ctl.extwrite" && r.T < bsstart[1] {
+			ext[r.VB] = tuple{r.D, r.Seq, r.B, r.C}
+		}
+	}
+	for vb := 0; vb < tr.Spec.NumVB; vb++ {
+		var sg *Seg
+		for _, x := range tr.Segs[vb] {
+			if x.ReqT > bsstart[1] && sg == nil {
+				sg = x
+			}
+		}
+		if sg == nil {
+			fs = append(fs, Finding{"C02", "reopen", "C02/reopen/missing", fmt.Sprintf("vb %d: not requested again at the second open", vb)})
+			continue
+		}
+		n++
+		if tr.Spec.Mode == "finite" {
+			high, ok := highsSent(tr, sg.ReqT)[vb]
+			if ok && sg.End != high {
+				fs = append(fs, Finding{"C02", "reopen", "C02/reopen/end", fmt.Sprintf("vb %d: the second open requested end %d, the high seqno the node reported at that open is %d (finite mode)", vb, sg.End, high)})
+			}
+		}
+		if want, ok := ext[vb]; ok && tr.Spec.ReadOnly {
+			got := tuple{sg.ReqUUID, sg.Start, sg.SnapS, sg.SnapE}
+			if got != want {
+				fs = append(fs, Finding{"C02", "reopen", "C02/reopen/stale-load", fmt.Sprintf("vb %d (read-only): the store held (vbuuid %d, seq %d, [%d,%d]) at the second open, requested (vbuuid %d, start %d, [%d,%d])", vb, want.uuid, want.seq, want.ss, want.se, got.uuid, got.seq, got.ss, got.se)})
+			}
+		}
+	}
+	return fs, n
 }
 
 func c02RoundSpec(rng *rand.Rand, i int) *c02Params {
@@ -264,6 +348,9 @@ func init() {
 			for i := 0; i < nr; i++ {
 				out = append(out, drv.Scenario{Kind: "round", Seed: seed, Params: mustJSON(c02RoundSpec(rng, i)), TimeoutS: 120, Solo: i%3 == 1})
 			}
+			for i := 0; i < nr/3; i++ {
+				out = append(out, drv.Scenario{Kind: "reopen", Seed: seed, Params: mustJSON(c02ReopenSpec(rng, i)), TimeoutS: 120, Solo: true})
+			}
 			if tier == "thorough" {
 				p, _ := c02Spec(rng, 0)
 				p.Spec.NumVB = 1024
@@ -290,6 +377,18 @@ func init() {
 			tr := RunSession(sp)
 			if tr.StartErr != "" {
 				return drv.Result{Verdict: drv.Inconclusive, Detail: tr.StartErr}
+			}
+			if p.Reopen {
+				fs, n := OracleReopen(tr)
+				for _, f := range fs {
+					if f.Key == "C02/reopen/inconclusive" {
+						return drv.Result{Verdict: drv.Inconclusive, Detail: f.Detail}
+					}
+				}
+				r := sessionResult("C02", tr, fs, true, map[string]any{"kind": "reopen", "mode": sp.Mode, "read_only": sp.ReadOnly, "backend": sp.Backend, "vbuckets": sp.NumVB})
+				r.TraceHash = drv.Hash("reopen", sp.Mode, fmt.Sprint(sp.ReadOnly), sp.Backend, fmt.Sprint(sp.NumVB))
+				r.Checks = n
+				return r
 			}
 			fs, n := OracleResume(tr)
 			big, mixed := false, len(sp.PreStore) > 0 && len(sp.PreStore) < sp.NumVB
